@@ -307,6 +307,10 @@ func (x *Exec) external(st *State, site ssa.Instruction, callee *ssa.Function, c
 		cancel := x.newRef(st, "cancel")
 		x.setResult(st, res, Val{Tup: []Val{{T: ctx}, {T: cancel}}})
 		return true
+	case "time.NewTicker", "time.NewTimer", "github.com/VividCortex/ewma.NewMovingAverage":
+		r := x.newRef(st, "obj")
+		x.setResult(st, res, Val{T: r})
+		return true
 	case "context.Background":
 		r := x.freshVar("ctxbg", SInt)
 		st.add(Gt(r, Zero))
@@ -404,6 +408,10 @@ func (x *Exec) externalIface(st *State, site ssa.Instruction, c *ssa.CallCommon,
 		theU.DeclFunc("ctxdone", SInt, SInt)
 		r := App("ctxdone", SInt, x.term(st, recv, c.Value.Type()))
 		st.add(Gt(r, Zero))
+		theU.DeclFunc("isext", SBool, SInt)
+		st.add(App("isext", SBool, r)) // a channel owned by package context
+		theU.DeclFunc("chtype", SInt, SInt)
+		st.add(Eq(App("chtype", SInt, r), IntLit(int64(x.P.typeTag(types.NewChan(types.SendRecv, types.NewStruct(nil, nil)))))))
 		x.setResult(st, res, Val{T: r})
 		x.extUsed["iface "+name] = true
 		return true
